@@ -17,6 +17,7 @@ def pat_names(names):
         pn["n:" + n] = {n}
         pn["d:" + n] = set()  # trailing-slash pattern: directory entry itself not matched; see DESIGN
     pn["g:tmp"] = {n for n in names if n.endswith("_t")}
+    pn[".DS_Store"] = {n for n in names if n == "dsstore"}
     return pn
 
 
